@@ -193,6 +193,7 @@ def main(argv):
         print(__doc__)
         return 2
     seed = int(os.environ.get("VERIF_SEED", "1") or "1")
+    os.environ["VERIF_TIER"] = tier          # property modules read the tier from here when run() needs it
     run_scratch = tempfile.mkdtemp(prefix="vf-run-")
     os.environ["VERIF_SCRATCH"] = run_scratch
     try:
